@@ -129,3 +129,20 @@ Theorem function_signal_single_filter : forall dt values g fr times,
   apply_filters dt values [(g, fr)] = filter_frequencies times values g fr.
 Proof. exact apply_filters_single. Qed.
 Print Assumptions function_signal_single_filter.
+
+(* FunctionSignal's buffer-extended grid (the times at which the function is evaluated before filtering) continues the
+   time grid with the SAME step: leading samples t0 - j dt (j = nb .. 1), then the grid, then tl + j dt (j = 1 .. na) *)
+Theorem function_signal_buffer_grid : forall times lead trail dt,
+  length (full_times times lead trail dt) = (n_buffer lead dt + length times + n_buffer trail dt)%nat
+  /\ (forall j, (j < n_buffer lead dt)%nat ->
+        nth j (full_times times lead trail dt) 0 = nth 0 times 0 - INR (n_buffer lead dt - j) * dt)
+  /\ (forall i, (i < length times)%nat -> nth (n_buffer lead dt + i) (full_times times lead trail dt) 0 = nth i times 0)
+  /\ (forall j, (j < n_buffer trail dt)%nat ->
+        nth (n_buffer lead dt + length times + j) (full_times times lead trail dt) 0 = last times 0 + INR (j + 1) * dt).
+Proof.
+  intros. split; [apply full_times_length | split; [|split]]; intros.
+  - apply full_times_leading; assumption.
+  - apply full_times_window; assumption.
+  - apply full_times_trailing; assumption.
+Qed.
+Print Assumptions function_signal_buffer_grid.
